@@ -43,5 +43,9 @@ def run(P, R, L):
     K.bundle_readpath(P, R, L)
     K.bundle_retention(P, R, L)
     K.bundle_liveness(P, R, L)
+    R.clause("ITR-1", "backward collapse of the client iterator: records newer than the snapshot change no state; every visible record rewrites the cache")
+    K.itr1_backward_collapse(P, R, L)
+    R.clause("ITR-2", "forward collapse of the client iterator: invisible records change no state; a visible Delete turns skipping on and remembers its key; shadowed Puts are skipped")
+    K.itr2_forward_collapse(P, R, L)
     R.not_decided += ["that get and iteration agree for every history", "that the kept entries are the right ones for every snapshot set "
                       "(the guard shape is necessary, not sufficient)"]
